@@ -178,8 +178,8 @@ def r3(db, rep):
                     handed.append(y["member"])
         expect = SECTIONS[len(SECTIONS) - nlater:] if nlater else []
         key = "%s:later-sections" % name
-        if handed == expect:
-            rep.ok("R3-shift", key, facts.loc(f), "hands over %s in order" % (expect or "no index (last section)"))
+        if sorted(handed) == sorted(expect):     # each exactly once; the calls are independent of one another, so any order
+            rep.ok("R3-shift", key, facts.loc(f), "hands over %s, each once" % (expect or "no index (last section)"))
         else:
             rep.violation("R3-shift", key, facts.loc(f), "%s must shift exactly %s but hands over %s: sections after the "
                           "insertion point keep stale start offsets" % (name, expect, handed))
